@@ -40,3 +40,5 @@ Definition G : gen :=
 Definition reserved : list str := map s2r Gen.UserInputChecks.reserved.
 (* the cursor statements of shovel/task.go: code constants, parameters only *)
 Definition cursor_texts : list str := map s2r Gen.UserInputChecks.task_consts.
+(* what the dashboard stores and the loader reads: code constants, parameters only *)
+Definition store_texts : list str := map s2r Gen.UserInputChecks.store_consts.
